@@ -981,6 +981,11 @@ class NetworkServiceElement(ApplicationServiceElement):
                 # if the request had a source, forward it along
                 if npdu.npduSADR:
                     whoisrtn.npduSADR = npdu.npduSADR
+                elif adapter.adapterNet is None:
+                    # the network the request came from has no number yet, so
+                    # there is no source address to forward it with
+                    if _debug: NetworkServiceElement._debug("    - unknown source network, not forwarded")
+                    return
                 else:
                     whoisrtn.npduSADR = RemoteStation(adapter.adapterNet, npdu.pduSource.addrAddr)
                 if _debug: NetworkServiceElement._debug("    - whoisrtn: %r", whoisrtn)
